@@ -255,7 +255,7 @@ func VReplayDsm(task engine.SeqTask) (res engine.SeqResult) {
 				res.Skip, res.Key = true, "skip"
 				return
 			}
-			if ds, err := w.Dsm.CreateDataset(h.DsName(op.DS), nil); err != nil {
+			if ds, err := w.Dsm.CreateDataset(h.DsName(op.DS), vDsVariant(op.N)); err != nil {
 				chk.fail("C07:create-rejected", "create rejected: "+err.Error(), nil)
 			} else {
 				h.M.Create(op.DS)
@@ -461,6 +461,8 @@ func vDsVariant(n int) *CreateDatasetConfig {
 		return &CreateDatasetConfig{PublicNamespaces: []string{"http://data.mimiro.io/core/dataset/", VNamespace}}
 	case 2:
 		return &CreateDatasetConfig{ProxyDatasetConfig: &ProxyDatasetConfig{RemoteURL: "http://remote.example/datasets/x", AuthProviderName: "prov", TimeoutSeconds: 7}}
+	case 3:
+		return &CreateDatasetConfig{VirtualDatasetConfig: &VirtualDatasetConfig{Transform: "ZnVuY3Rpb24gYnVpbGRfZW50aXRpZXMoKSB7fQ=="}}
 	}
 	return nil
 }
